@@ -176,9 +176,14 @@ func VerifUploads() {
 	mapJSON, _ := json.Marshal(cmap)
 	// different files may carry the same file name (two "image.png")
 	sameName := len(c.fmap) > 1 && len(c.fmap) < 4 && verifChoice("samename", 2) == 1
+	// file names may hold what a Content-Disposition header has to quote
+	odd := len(c.fmap) < 4 && verifChoice("oddname", 2) == 1
 	nameOf := func(k string) string {
 		if sameName {
 			return "image.png"
+		}
+		if odd {
+			return `report "final" \` + k + `; v=2.txt`
 		}
 		return "file" + k + ".txt"
 	}
